@@ -3,6 +3,7 @@ package eng
 import (
 	"go/ast"
 	"go/types"
+	"strings"
 
 	"golang.org/x/tools/go/cfg"
 )
@@ -33,14 +34,22 @@ func mutexOp(info *types.Info, n ast.Node) (key string, acquire bool, ok bool) {
 	if tn != "sync.Mutex" && tn != "sync.RWMutex" {
 		return "", false, false
 	}
+	// shared (read) acquisitions are tracked under their own key so that a rule can ask for the
+	// exclusive lock; HeldAt folds both, HeldExclusiveAt does not.
 	switch se.Sel.Name {
-	case "Lock", "RLock":
+	case "Lock":
 		return ExprStr(se.X), true, true
-	case "Unlock", "RUnlock":
+	case "RLock":
+		return ExprStr(se.X) + sharedSuffix, true, true
+	case "Unlock":
 		return ExprStr(se.X), false, true
+	case "RUnlock":
+		return ExprStr(se.X) + sharedSuffix, false, true
 	}
 	return "", false, false
 }
+
+const sharedSuffix = "\x00R"
 
 // NewLockSets runs the must-hold analysis.
 func NewLockSets(flow *FlowGraph) *LockSets {
@@ -148,8 +157,28 @@ func sameSet(a, b map[string]bool) bool {
 	return true
 }
 
-// HeldAt returns the must-hold set just before the node at point pt executes.
+// HeldAt returns the must-hold set just before the node at point pt executes (a lock counts as held
+// whether it was taken exclusively or shared).
 func (ls *LockSets) HeldAt(pt Point) map[string]bool {
+	out := map[string]bool{}
+	for k := range ls.heldRaw(pt) {
+		out[strings.TrimSuffix(k, sharedSuffix)] = true
+	}
+	return out
+}
+
+// HeldExclusiveAt returns the locks that are held exclusively (Lock, not RLock) at pt.
+func (ls *LockSets) HeldExclusiveAt(pt Point) map[string]bool {
+	out := map[string]bool{}
+	for k := range ls.heldRaw(pt) {
+		if !strings.HasSuffix(k, sharedSuffix) {
+			out[k] = true
+		}
+	}
+	return out
+}
+
+func (ls *LockSets) heldRaw(pt Point) map[string]bool {
 	cur := map[string]bool{}
 	for k := range ls.in[pt.B] {
 		cur[k] = true
